@@ -41,7 +41,7 @@ func genC20(r *Rng, k int) *RunSpec {
 			if len(ids) > 0 && r.Intn(4) == 0 {
 				iid = Pick(r, ids)
 			} else {
-				iid = fmt.Sprintf("https://%s%s/act/i%d%s", Pick(r, []string{"", "", "", "alice@", "bob:secret@"}), Pick(r, []string{hostR, hostR, hostR + ":8443"}), i, Pick(r, []string{"", "", "?v=1", "#frag"}))
+				iid = fmt.Sprintf("https://%s%s/act/i%d%s", Pick(r, []string{"", "", "", "alice@", "bob:secret@"}), Pick(r, []string{hostR, hostR, hostR + ":8443"}), i, Pick(r, []string{"", "", "?v=1", "#frag", "/caf%C3%A9%20au%20lait", "?q=100%25"}))
 				ids = append(ids, iid)
 			}
 			if r.Intn(9) == 0 {
@@ -51,7 +51,7 @@ func genC20(r *Rng, k int) *RunSpec {
 				// an anonymous embedded value: it has no identity to de-duplicate by
 				items = append(items, J{"type": "Note", "content": fmt.Sprint("anonymous ", i)})
 			} else if r.Intn(3) == 0 {
-				it := J{"type": Pick(r, []string{"Create", "Like", "Note", "Announce"}), "id": iid, "summary": fmt.Sprint("s", i)}
+				it := J{"type": Pick(r, []string{"Create", "Like", "Note", "Announce"}), "id": iid, "summary": Pick(r, []string{fmt.Sprint("s", i), "100% sure, %d%s%v"})}
 				// what the application supplies is served as supplied: a page may embed values that carry hidden recipients
 				if r.Intn(4) == 0 {
 					it[Pick(r, []string{"bto", "bcc"})] = st.Dave
@@ -111,6 +111,10 @@ func genC20(r *Rng, k int) *RunSpec {
 		}
 		if r.Intn(3) == 0 && isActivityType(typ) && typ != "Arrive" && typ != "Travel" && typ != "IntransitiveActivity" && typ != "Question" { // intransitive types have no object property
 			val["object"] = J{"type": "Note", "id": "https://" + hostA + "/v/2", "bto": st.Dave, "content": "inner"}
+			if r.Intn(3) == 0 {
+				// several embedded objects, each with hidden recipients of its own
+				val["object"] = []interface{}{val["object"], J{"type": "Note", "id": "https://" + hostA + "/v/3", "bcc": []string{st.Erin}, "content": "second"}, "https://" + hostA + "/v/4"}
+			}
 		}
 	}
 	if strings.HasSuffix(typ, "Collection") || strings.HasSuffix(typ, "CollectionPage") || r.Intn(12) == 0 && !isActivityType(typ) && typ != "Link" && typ != "Mention" && typ != "PublicKey" && typ != "Tombstone" {
